@@ -5,6 +5,9 @@ import concurrent.futures as cf, json, pathlib, subprocess, sys, time
 V = pathlib.Path(__file__).resolve().parent.parent
 args = sys.argv[1:]
 jobs = 3
+merge = "--merge" in args   # keep the rows (and the preamble) of RESULTS.md for changes that are not re-run now
+if merge:
+    args.remove("--merge")
 if "--jobs" in args:
     i = args.index("--jobs"); jobs = int(args[i + 1]); del args[i:i + 2]
 claimed = [l.split("#")[0].strip() for l in (V / "harness/claimed.txt").read_text().split("\n") if l.split("#")[0].strip()]
@@ -39,4 +42,14 @@ out = ["# Seeded changes vs checks", "", "| seed | property | result of `./check
 for name, prop, res, dt in rows:
     meta = json.loads((V / "seeded" / name / "meta.json").read_text())
     out.append(f"| {name} — {meta.get('summary', '')[:110]} | {prop} | {res.replace('|', '/')} | {dt} |")
-(V / "seeded" / "RESULTS.md").write_text("\n".join(out) + "\n")
+res_file = V / "seeded" / "RESULTS.md"
+if merge and res_file.exists():
+    old = res_file.read_text().split("\n")
+    new_rows = {l.split(" ", 2)[1]: l for l in out[4:]}
+    head = [l for l in old if not l.startswith("| ") or l.startswith("| seed ")]
+    kept = {l.split(" ", 2)[1]: l for l in old if l.startswith("| ") and not l.startswith("| seed ")}
+    kept.update(new_rows)
+    while head and not head[-1].strip():
+        head.pop()
+    out = head + [kept[k] for k in sorted(kept)]
+res_file.write_text("\n".join(out) + "\n")
